@@ -475,7 +475,7 @@ def rule_omp_global(rep):
 
 
 # ------------------------------------------------------------------------------------------------ R-SHIFT, R-ALLOC, census
-def rule_shift(rep, pat=r'^(NTT_Goldilocks::|BR\()'):
+def rule_shift(rep, pat=r'^(NTT_Goldilocks::|BR\()', floor=5, label='transform unit'):
     """an int-typed shift with a non-constant amount whose result is widened to 64 bits"""
     mod = smod()
     nshl = 0
@@ -502,8 +502,8 @@ def rule_shift(rep, pat=r'^(NTT_Goldilocks::|BR\()'):
                         if widened:
                             rep.refute('shift:%s@%s' % (mod.dem[name].split('(')[0], loc(mod, ins, name)), 'R-SHIFT', loc(mod, ins, name),
                                        '32-bit shift with a variable amount is widened to 64 bits: overflows (undefined behaviour) once the amount reaches 31')
-    rep.floor('shl instructions inspected', nshl, 5)
-    rep.ok('shift:census', 'R-SHIFT', 'src/ntt_goldilocks.cpp', '%d shl instructions in the transform unit, none is an int shift widened to 64 bits' % nshl)
+    rep.floor('shl instructions inspected (%s)' % label, nshl, floor)
+    rep.ok('shift:census:' + label, 'R-SHIFT', 'src/ntt_goldilocks.cpp', '%d shl instructions in the %s inspected' % (nshl, label))
 
 
 def origins(fi, v, depth=0, seen=None):
@@ -756,3 +756,121 @@ def rule_compute_r(rep):
             bad.append('the key of the memoised table is %s, not N=%d' % (key[0] if key else None, N))
         (rep.refute if bad else rep.ok)('compute-r:N=%d' % N, 'R-CONST', 'src/ntt_goldilocks.hpp',
                                         '; '.join(bad[:3]) if bad else 'r[i] = 7^i, r_[i] = 7^i/N for i < %d, key = N' % N)
+
+
+# ------------------------------------------------------------------------------------------------ alignment typestate
+def ptr_alignment(mod, fi, v, need, depth=0, seen=None):
+    """(ok, reason): is pointer operand v provably `need`-byte aligned?"""
+    seen = seen if seen is not None else set()
+    if v[0] == 'g':
+        return True, 'global'
+    if v[0] in ('cgep', 'ccast'):
+        return True, 'constant expression on a global'
+    if v[0] != 'r':
+        return False, 'unknown operand'
+    if v[1] in seen or depth > 12:
+        return True, 'cycle'
+    seen.add(v[1])
+    if v[1] in fi.params:
+        t = dict((p, t_) for t_, p in fi.fn.params)[v[1]]
+        if t[0] == 'p' and (t[1][0] == 'v' or (t[1][0] == 'a' and t[1][2][0] == 'v')):
+            return True, 'reference to a vector object'
+        nm = v[1].rstrip('0123456789')
+        if v[1].endswith('_a') or '_a.' in v[1]:
+            return True, 'parameter %s carries the aligned contract (_a)' % v[1][1:]
+        return False, 'parameter %s has no alignment contract' % v[1][1:]
+    d = fi.defs.get(v[1])
+    if d is None:
+        return False, 'undefined'
+    ins = d[1]
+    if ins.op == 'alloca':
+        al = ins.x or 1
+        return (al >= need), 'local object aligned to %d' % al
+    if ins.op == 'bitcast':
+        return ptr_alignment(mod, fi, ins.a[0], need, depth + 1, seen)
+    if ins.op == 'getelementptr':
+        ok, why = ptr_alignment(mod, fi, ins.a[0], need, depth + 1, seen)
+        if not ok:
+            return ok, why
+        # constant byte offset must be a multiple of `need`
+        off = 0
+        cur = ins.ty
+        for j, ix in enumerate(ins.a[1:]):
+            if ix[0] != 'i':
+                # variable index: fine only if the element stride is a multiple of need
+                if j == 0:
+                    st = ir.sizeof(mod, cur)
+                else:
+                    cur = cur[2] if cur[0] in ('a', 'v') else cur
+                    st = ir.sizeof(mod, cur)
+                if st % need:
+                    return False, 'variable index with element stride %d' % st
+                continue
+            i = ix[1]
+            if j == 0:
+                off += i * ir.sizeof(mod, cur)
+            elif cur[0] in ('s', 'lit'):
+                o, cur = ir.field_offset(mod, cur, i)
+                off += o
+            else:
+                cur = cur[2]
+                off += i * ir.sizeof(mod, cur)
+        if off % need:
+            return False, 'offset %d bytes from an aligned base is not a multiple of %d' % (off, need)
+        return True, why
+    if ins.op in ('phi', 'select'):
+        vals = [x for x, l in ins.a] if ins.op == 'phi' else list(ins.a[1:])
+        for x in vals:
+            ok, why = ptr_alignment(mod, fi, x, need, depth + 1, seen)
+            if not ok:
+                return ok, why
+        return True, 'all incoming pointers aligned'
+    if ins.op == 'load':
+        return False, 'pointer loaded from memory'
+    if ins.op in ('call', 'invoke'):
+        c = callee_name(ins)
+        if c in ALLOC:
+            return (need <= 16), '%s returns 16-byte aligned memory' % c
+        return False, 'pointer returned by a call'
+    return False, ins.op
+
+
+def rule_align(rep):
+    """aligned vector accesses (IR align >= 32) and calls of aligned-contract (_a) routines only through provably aligned pointers"""
+    nacc = 0
+    ncall = 0
+    for cfg in ('avx2', 'avx512'):
+        mod = smod(cfg)
+        for name in mod.funcs:
+            d = mod.dem.get(name, '')
+            if not re.match(r'^(Goldilocks3?|PoseidonGoldilocks|NTT_Goldilocks|MerklehashGoldilocks)::', d):
+                continue
+            if cfg == 'avx512' and '512' not in d:
+                continue
+            fi = info(mod, name)
+            short = d.split('(')[0]
+            for b in fi.fn.order:
+                for ins in fi.fn.blocks[b]:
+                    if ins.op in ('load', 'store') and ins.ty[0] == 'v' and (ins.x or 1) >= 32:
+                        nacc += 1
+                        pv = ins.a[0] if ins.op == 'load' else ins.a[1]
+                        ok, why = ptr_alignment(mod, fi, pv, ins.x)
+                        tag = 'align:%s/%s@%s#%d' % (cfg, short, loc(mod, ins, name), nacc)
+                        if not ok:
+                            rep.refute(tag, 'R-ALIGN', loc(mod, ins, name), '%d-byte aligned vector %s through a pointer that is not provably aligned: %s' % (ins.x, ins.op, why))
+                    c = callee_name(ins)
+                    if c and c in mod.funcs and re.match(r'^(Goldilocks|PoseidonGoldilocks)::\w+_a\(', mod.dem.get(c, '')):
+                        cf = mod.fn(c)
+                        need = 64 if '512' in mod.dem[c] else 32
+                        for (t, pn), a in zip(cf.params, ins.a[1:]):
+                            if pn and pn.endswith('_a') and t[0] == 'p':
+                                ncall += 1
+                                ok, why = ptr_alignment(mod, fi, a, need)
+                                tag = 'align-call:%s/%s->%s@%s' % (cfg, short, mod.dem[c].split('(')[0], loc(mod, ins, name))
+                                if ok:
+                                    rep.ok(tag, 'R-ALIGN', loc(mod, ins, name), 'argument for %s is %d-byte aligned (%s)' % (pn[1:], need, why))
+                                else:
+                                    rep.refute(tag, 'R-ALIGN', loc(mod, ins, name), 'argument for aligned parameter %s is not provably %d-byte aligned: %s' % (pn[1:], need, why))
+    rep.floor('aligned vector accesses inspected', nacc, 200)
+    rep.floor('calls of aligned-contract routines', ncall, 15)
+    rep.ok('align:census', 'R-ALIGN', 'src/goldilocks_base_field_avx.hpp', '%d aligned vector accesses and %d aligned-contract call arguments inspected' % (nacc, ncall))
